@@ -54,8 +54,10 @@ ImplInv(js, S) ==
     ELSE IF ~EdgesAnchored(S) THEN "DanglingEdge"
     ELSE ""
 
+\* a deviation is a way of DIFFERING from the reference: a line that agrees with it is never one
+Differs(exp, line, got) == line.out # exp.out \/ ~ResOK(exp.res, line.res) \/ got.n # exp.st.n \/ got.e # exp.st.e
 Verdict(exp, line, js, got) ==
-    IF Deviation(Traces[tid].backend, cur, line.op, line.out, got) # ""
+    IF Differs(exp, line, got) /\ Deviation(Traces[tid].backend, cur, line.op, line.out, got) # ""
         THEN "deviation:" \o Deviation(Traces[tid].backend, cur, line.op, line.out, got)
     ELSE IF line.out # exp.out THEN "outcome: expected " \o exp.out \o " got " \o line.out
     ELSE IF ~ResOK(exp.res, line.res) THEN
